@@ -35,6 +35,7 @@ def run(ctx):
     ctx.assumptions += ["device model: one line per (rule,key); block headers fully determined by (rule,key)",
                         "documented contracts of permanent / ignore_changes are part of the oracle (Conv)",
                         "block-structured vendor profiles (huawei, cisco, pc, ...); flattening vendors (juniper, nokia, routeros) not covered"]
+    mc_converge(ctx, quick)
     limit = 900 if quick else 30000
     profiles = ["huawei", "cisco"] if quick else ["huawei", "cisco", "pc", "arista", "h3c", "nexus"]
     total_exh = True
@@ -57,6 +58,7 @@ def run(ctx):
                 r1.append(rec)
         ctx.count(len(r1))
         v1 = judge(ctx, cat, aux, r1, "round1")
+        measure_drift(ctx, cat, aux, r1)
         # ---- round 2: second diff on the spec's device state; round 3: chain step to another target from that state
         r2, r3 = [], []
         for rec in r1:
@@ -97,6 +99,59 @@ def run(ctx):
         mid = r1[len(r1) // 2]
         ctx.sample({"profile": prof, "rulebook": cat.names[mid["rb"] - 1], "old": mid["old"], "new": mid["new"], "cmds": mid["cmds"]}, limit=3)
     ctx.cov["exhaustive"] = total_exh
+
+
+# catalogue entries (1-based) small enough for the every-change tier; the thorough tier takes every entry, both rank orders and one chain hop
+MC_QUICK = [4, 5, 7, 9, 11]
+MC_KNOWN = {13: "SecondEmpty"}       # rewrite-values: the known finding of this property exists in the design itself
+
+
+def mc_converge(ctx, quick):
+    """A-layer (spec/Patcher.tla) executed on the P-layer device over full squares of Configs(R)"""
+    import os
+    base = open(os.path.join(core.SPEC, "mc", "MC_Converge.cfg")).read()
+    n_entries = 13
+    runs = []
+    for e in (MC_QUICK if quick else range(1, n_entries + 1)):
+        if e in MC_KNOWN:
+            continue
+        runs.append((e, False, False))
+        if not quick:
+            runs.append((e, True, False))
+            if e in MC_QUICK:
+                runs.append((e, False, True))
+    runs.append((13, False, False))
+    for (e, rev, hop) in runs:
+        cfg = os.path.join(ctx.scratch, "conv_%d_%d_%d.cfg" % (e, rev, hop))
+        open(cfg, "w").write(base.replace("Entry = 2", "Entry = %d" % e).replace("RankRev = FALSE", "RankRev = %s" % str(rev).upper())
+                             .replace("Hop = FALSE", "Hop = %s" % str(hop).upper()))
+        r = ctx.mc("mc/MC_Converge.tla", cfg, name="MC_Converge[entry=%d,rankrev=%s,hop=%s]" % (e, rev, hop), expect_ok=False, timeout=3000)
+        if e in MC_KNOWN:
+            if MC_KNOWN[e] not in r.violated:
+                raise core.Machinery("anti-vacuity: the design-level instance of the known finding (entry %d) no longer violates %s: %s"
+                                     % (e, MC_KNOWN[e], r.violated))
+            ctx.cov["mc_runs"][-1]["expected"] = "%s violated (design-level instance of the recorded %%rewrite finding)" % MC_KNOWN[e]
+        elif r.violated:
+            # the transcription is not the implementation: a failure here is a defect of the model or a change of the catalogue
+            raise core.Machinery("MC_Converge entry %d: %s\n%s" % (e, r.violated, r.out[-1500:]))
+
+
+def measure_drift(ctx, cat, aux, recs):
+    """A-layer against the real code on the same inputs: differences are model drift, not violations"""
+    slim = [{"id": r["id"], "rb": r["rb"], "old": r["old"], "new": r["new"], "diff": r["diff"], "cmds": r["cmds"]}
+            for r in recs if "exc" not in r and "diff" in r]
+    if not slim:
+        return
+    verd = ctx.judge("trace/Trace_Patcher.tla", "trace/Trace.cfg", slim, env={"AUX_FILE": aux}, shards=16,
+                     name="Trace_Patcher[%s]" % cat.profile)
+    n = 0
+    for r in slim:
+        v = verd[r["id"]][0]
+        if v != "same":
+            n += 1
+            ctx.drift(1, {"stage": v, "profile": cat.profile, "rulebook": cat.names[r["rb"] - 1], "old": r["old"], "new": r["new"]})
+    ctx.cov.setdefault("drift_compared", 0)
+    ctx.cov["drift_compared"] += len(slim)
 
 
 def judge(ctx, cat, aux, recs, label):
